@@ -58,6 +58,8 @@ def handle (req : Json) : Json :=
             Json.arr #[toJson g, Json.arr ((b.scopeOwn g).map vJ).toArray])).toArray),
         ("trace", Json.arr (tr.map evJ).toArray),
         ("struct_ok", structOk p tr []),
+        -- the position of every emitted vertex as the ModelProto shows it (`placed_in_scope`)
+        ("placed", Json.arr ((placed tr []).map (fun e => Json.arr #[vJ e.1, toJson e.2])).toArray),
         -- the bridge to the shared program model (C01): the emission as a `Prog.EGraph`
         ("bridge_valid", let q := Bridge.toProg p b.argsOf
                          Prog.validG q.nodes (Bridge.toEGraph p b) q.main []),
